@@ -85,7 +85,7 @@ def jobs_for(tier):
         for ind in INDENTS[tier]:
             for ne in ((False, True) if ('enum' in t['feats'] and tier == 'thorough') else (False,)):
                 jobs.append(dict(id='%s/indent=%s%s' % (t['id'], ind, '/numeric' if ne else ''), template=t['id'],
-                                 indent=ind, numeric_enums=ne, tier=tier, W=256, kind='readback'))
+                                 indent=ind, numeric_enums=ne, tier=corpus.job_tier(t, tier), W=256, kind='readback'))
     from checks import C02_real
     for layout in ('fixed', 'exp'):
         for ind in INDENTS[tier][:2]:
